@@ -312,7 +312,7 @@ def run(prop, tier, seed, replay, obligations_extra=()):
         "evaluations": events,
         "distinct_nontrivial": len(nontriv),
         "rule": "scenarios (captures with UDP flows that extend / reset earlier streams, tag add/update/delete over a "
-                "pool of 5 names with references, marks, converter attach, views, and `rel <job>` ops that deliver "
+                "pool of 6 names with references (also inside a sub-query `@s:…`, also payload words that occur in converter output only), marks, converter attach, views, and `rel <job>` ops that deliver "
                 "parked job completions in the generated order) from splitmix64(VERIF_SEED); evaluations = events "
                 "executed; non-trivial = distinct (scenario, kind) where an invalidation is delivered while a "
                 "tagging job is parked, or a merge completes under a held view",
